@@ -336,7 +336,7 @@ def run(prop, tier, seed):
         for k, c in hunts.items():
             jobs[k] = ex.submit(tlc, k, c, wd, w4 if k == "cex_restart_winners" else 1, 1500)
         # (3) behaviours
-        nb = 60 if quick else 700
+        nb = 60 if quick else 2000
         sims = {
             "sim3": (cfg_text(3, [1, 2, 3], "Mixed3Clash", 2, 2, True, ["SimExport"], view=False, sim=True), 2),
             "sim3w": (cfg_text(3, [1, 3], "Mixed3Wrap", 2, 1, True, ["SimExport"], view=False, sim=True), 2),
@@ -387,7 +387,7 @@ def run(prop, tier, seed):
                 nbeh += 1
         tlc_scs = len(scs)
         # (4) wide-range + directed
-        nw = 160 if quick else 3000
+        nw = 160 if quick else 9000
         wide = [gen_wide(seed, i) for i in range(nw)]
         direct = directed_scenarios()
         scs = scs + wide + direct
